@@ -478,7 +478,8 @@ func c20GenFile(r *rand.Rand, startOff int64, sizeClass, malformed int) *c20Buil
 			`{"T":"2023-03-05"}`,
 			`no timestamp at all`,
 			`"T":"` + ts + `"`,
-		}[r.IntN(9)], off)
+			`{"T":"1970-01-01T00:00:00Z","QH":"epoch"}`,
+		}[r.IntN(10)], off)
 		b.cur = off
 		b.addJ(r, r.IntN(3), 90)
 	}
@@ -494,7 +495,7 @@ func c20Targets(r *rand.Rand, offs []int64, budget int) (ts []int64) {
 			st = append(st, c20Base+o)
 		}
 	}
-	ts = append(ts, c20Base-5, 1, c20Base+c20DayNs+7, 4102444800_000000000)
+	ts = append(ts, c20Base-5, 1, 0, c20Base+c20DayNs+7, 4102444800_000000000)
 	if len(st) == 0 {
 		return ts
 	}
@@ -527,6 +528,18 @@ func c20Targets(r *rand.Rand, offs []int64, budget int) (ts []int64) {
 func c20Gen(r *rand.Rand, emit vutil.Emit) {
 	n := vutil.N(200)
 	for blk := 0; blk < n; blk++ {
+		if r.IntN(150) == 0 {
+			// No file at all: newQLogReader found none.
+			emit(c20Fields(nil)...)
+			emit("C20.next", "2")
+			emit("C20.seek", strconv.FormatInt(c20Base+int64(r.IntN(5)), 10))
+			emit("C20.next", "1")
+			emit("C20.start")
+			emit("C20.next", vutil.Itoa(r.IntN(3)))
+			emit("C20.seek", "0")
+
+			continue
+		}
 		// Size class of the block.
 		var class int
 		switch x := r.IntN(100); {
